@@ -118,6 +118,8 @@ def run(chk):
                 chk.diverge({"clause": "nan", "autoconvert": ac}, {"unit": uname})
 
     nan_in_arrays(chk)
+    unit_against_number(chk)
+    same_object_over_time(chk)
     decimal_in_float_registry(chk)
     events = drive_default(chk, rng, 6000 if thorough else 1500)
     for e, clause in defreg.validate(chk, "Trace_Reg", events):
@@ -129,6 +131,57 @@ def run(chk):
              "comparison operator / hash) executed on a materialised registry; distinct by (mode, op, a, b); non-trivial = operands "
              "in different units; plus constructed equal / adjacent pairs over the bundled registry validated by Trace_Reg",
         exhaustive=True)
+
+
+def unit_against_number(chk):
+    """a Unit compared with a bare number is the quantity 1 * unit compared with it: equal only for dimensionless units (1 percent == 0.01)"""
+    import pint
+    u = pint.UnitRegistry()
+    for un in ("meter", "kilometer", "minute", "degree_Celsius", "percent", "radian", "dimensionless", "ppm", "kelvin", "inch"):
+        U = u.Unit(un)
+        f = u.Quantity(1.0, un).to_root_units().magnitude
+        for n in (1, f, 1000, 60, 0.01, 1e-6, 0):
+            chk.case(("unit-vs-number", un, repr(n)))
+            def outcome(f):
+                try:
+                    return f()
+                except Exception as e:
+                    return type(e).__name__
+            q1 = u.Quantity(1.0, un)
+            got = (outcome(lambda: bool(U == n)), outcome(lambda: bool(n == U)), outcome(lambda: bool(U != n)))
+            want = (outcome(lambda: bool(q1 == n)), outcome(lambda: bool(n == q1)), outcome(lambda: bool(q1 != n)))
+            if got != want:
+                chk.diverge({"clause": "unit-vs-number"}, {"unit": un, "number": repr(n), "unit_results": repr(got), "quantity_results": repr(want)})
+
+
+def same_object_over_time(chk):
+    """what a quantity compares to depends on its present magnitude and units only: an object that was compared, converted in place
+    across multiplicative / offset units and compared again behaves like a freshly made one"""
+    import pint
+    u = pint.UnitRegistry()
+    for m, a, b in ((273.15, "kelvin", "degC"), (20.0, "degC", "kelvin"), (0.0, "kelvin", "degF"), (32.0, "degF", "kelvin"), (5.0, "delta_degC", "kelvin"), (1.0, "meter", "centimeter")):
+        chk.case(("same-object", m, a, b))
+        q = u.Quantity(m, a)
+        probes = lambda x: []
+        def facts(x):
+            out = {}
+            for name, f in (("== 0 K", lambda: bool(x == u.Quantity(0.0, "kelvin"))), ("== 0", lambda: bool(x == 0)), ("bool", lambda: bool(x)), ("> 0", lambda: bool(x > 0)),
+                            ("< 1 K", lambda: bool(x < u.Quantity(1.0, "kelvin"))), ("hash", lambda: hash(x))):
+                try:
+                    out[name] = f()
+                except Exception as e:
+                    out[name] = type(e).__name__
+            return out
+        facts(q)                                  # the earlier comparison
+        try:
+            q.ito(b)
+        except Exception:
+            continue
+        fresh = u.Quantity(q.magnitude, b)
+        f1, f2 = facts(q), facts(fresh)
+        if f1 != f2:
+            diff = sorted(k for k in f1 if f1[k] != f2[k])
+            chk.diverge({"clause": "stale-after-inplace-conversion", "fact": diff[0]}, {"from": a, "to": b, "magnitude": m, "object": {k: repr(f1[k]) for k in diff}, "fresh": {k: repr(f2[k]) for k in diff}})
 
 
 def nan_in_arrays(chk):
